@@ -54,17 +54,25 @@ PROPS = {
                      "efficiency, random relabelling, null players, linearity; ~10% malformed (one coalition unknown → err:value; non-player index); non-trivial = game not "
                      "invariant under any transposition; distinct by (n, values)"),
             "trusted": ["Mathlib's List.permutations as the meaning of 'all orderings' (pinned by orderings_complete; orderings_exec avoids it)"]},
-    "C19": {"lean": "ICG.Props.C19", "streams": [("corr_store", "C19")],
+    "C19": {"lean": ["ICG.Props.C19", "ICG.Props.C19Codec", "ICG.Lemmas.CodecArr", "ICG.Lemmas.CodecMeta"], "streams": [("corr_store", "C19"), ("corr_codec", "C19")],
             "rule": ("random save histories (1..8 saves, names from a pool with ~25% deliberate repeats incl. '', unicode, quotes, newline; shapes 1x1..4x4 and 12..40 square-ish; "
                      "2-D float / 2-D int / (k,1) int / NaN-padded 3-D actions; cells NaN, ±inf, -0.0, 1e300, subnormals; metadata Path / callable / int / float / None / list / tuple) "
                      "through the real save_json + get_outputs_from_file + Output.from_file, plus solve / greedy / best_states in-process (n=3,4; 1-2 steps; 1-3 repetitions) with the "
                      "computing function wrapped; saves also go through a symlinked spelling of the directory and from a forked child; every 2nd history contains saves that "
                      "legitimately raise (un-serialisable metadata keys / circular reference / missing func) and must leave data.json byte-identical; 3 (quick) / 25 (thorough) histories "
                      "go through save() with all SAVERS (Agg) with NaN/±inf gap cells; the caller's Output is checked unmodified after every save; "
-                     "non-trivial = history with a repeated name, >=2 names and a NaN cell, and every command run; distinct by history / run index"),
-            "assumptions": ["JSON text round trip of float64 / NaN tokens and np.array shape recovery are the codec hypothesis `decode (encode e) = some e` of the theorems; covered only by this sampling",
+                     "non-trivial = history with a repeated name, >=2 names and a NaN cell, and every command run; distinct by history / run index. "
+                     "Codec stream (corr_codec), four sub-streams regenerated from (sub, seed): `in` = Outputs r=1..4 x c=1..5 with float64 cells (integers, dyadics, negative, 1e300, 2^1000, "
+                     "DBL_MAX, 5e-324, -0.0, NaN, ±inf), actions float NaN-padded / int / (k,1) / 3-D NaN-padded / bool, a Namespace with str/int/float/bool/None/list/tuple/nested dict/Path/objects "
+                     "and key types str/int/bool/None/float incl. colliding keys (~12% legitimately raise), through the real Output.json + dumps + loads + from_json, save_json + from_file and "
+                     "get_outputs_from_file on 6-entry files; `out` = degenerate shapes (0 rows / 0 columns / 1-d / 0-d), model vs code only; `raw` = hand-made JSON entries, bare np.array / tolist / "
+                     "reload; `meta` = metadata values alone; non-trivial there = in-domain Output with >= 2 gap cells holding a NaN and a finite non-integer and metadata with a non-JSON value"),
+            "assumptions": ["the entry codec is a concrete model at the level of JSON value trees (Model/Codec.lean) with the round trip PROVED (Props/C19Codec: matrix_roundtrip, metadata_roundtrip, entry_roundtrip, "
+                            "concreteCodec + file_roundtrip_concrete …); what stays assumed (T1-T6 in Model/Codec.lean): json text, i.e. loads(dumps(tree)) = reload(tree) incl. float decimal text and NaN/Infinity tokens; "
+                            "the text of float dict keys; int->double rounding (a parameter, sampled); numpy beyond the modelled fragment answers `unmodelled`; circular references / raising reprs are not PyVal trees; "
+                            "'eval' in repr(func) exact only for callables and printable str/Path",
                             "'saved matrices are the computed ones' is checked on the commands by wrapping evaluate / get_greedy_rewards / get_best_exploitability, not proved"],
-            "trusted": ["json, numpy array<->list conversion"], "quick_s": 60, "thorough_s": 600},
+            "trusted": ["JSON text encoding/decoding of float64, int->double rounding (numpy array<->list conversion is modelled and proved for the fragment used)"], "quick_s": 75, "thorough_s": 600},
     "C20": {"lean": "ICG.Props.C20", "streams": [("corr_store", "C20")],
             "rule": ("the file-system operations of the real save_json are observed (os.* and io.open wrapped in the harness process; same io buffering classes as the interpreter) for "
                      "histories with 0..5 earlier runs x result sizes 1x1..70x60 (1..8 written chunks) x new / existing name x stale temp file; the list is fed to the model "
